@@ -369,6 +369,59 @@ class Program:
                                     klass.attr_types[target.attr] = callee
         return klass.attr_types.get(attr)
 
+    def local_type(self, func: Func, name: str) -> Optional[str]:
+        """ngo class of a local: a parameter annotated with it, or a local always assigned from its constructor"""
+        cache = self.__dict__.setdefault("_ltypes", {})
+        key = (func.qualname, name)
+        if key in cache:
+            return cache[key]  # type: ignore[no-any-return]
+        cache[key] = None
+        result: Optional[str] = None
+        node = func.node
+        args = node.args  # type: ignore[attr-defined]
+        for arg in args.posonlyargs + args.args + args.kwonlyargs:
+            if arg.arg == name and arg.annotation is not None:
+                ann = arg.annotation
+                if isinstance(ann, ast.Constant) and isinstance(ann.value, str):
+                    try:
+                        ann = ast.parse(ann.value, mode="eval").body
+                    except SyntaxError:
+                        ann = None
+                if ann is not None and isinstance(ann, (ast.Name, ast.Attribute)):
+                    res = self.resolve_callee(func, ann)
+                    if res in self.classes:
+                        result = res
+        if result is None and not isinstance(node, ast.Lambda):
+            found: set[Optional[str]] = set()
+            todo: list[ast.AST] = list(node.body)  # type: ignore[attr-defined]
+            while todo:
+                cur = todo.pop()
+                if isinstance(cur, (ast.FunctionDef, ast.Lambda, ast.ClassDef)):
+                    continue
+                if isinstance(cur, (ast.Assign, ast.AnnAssign)):
+                    targets = cur.targets if isinstance(cur, ast.Assign) else [cur.target]
+                    for t in targets:
+                        if isinstance(t, ast.Name) and t.id == name:
+                            val = cur.value
+                            if isinstance(val, ast.Call):
+                                res = self.resolve_callee(func, val.func)
+                                found.add(res if res in self.classes else None)
+                            else:
+                                found.add(None)
+                    if cur.value is not None:
+                        todo.append(cur.value)
+                    todo.extend(t for t in targets if not isinstance(t, ast.Name))
+                    continue
+                elif isinstance(cur, ast.Name) and isinstance(cur.ctx, ast.Store) and cur.id == name:
+                    found.add(None)
+                todo.extend(ast.iter_child_nodes(cur))
+            if len(found) == 1 and None not in found:
+                result = next(iter(found))
+        if result is None and func.parent is not None and name not in func.params():
+            result = self.local_type(func.parent, name)
+        cache[key] = result
+        return result
+
     def resolve_callee(self, func: Func, callee: ast.expr) -> Optional[str]:
         """qualname ('mod:Name') of an ngo function/class, or dotted name of an external symbol
         ('clingo.ast.Rule', 'builtins.len'), or None"""
@@ -404,6 +457,11 @@ class Program:
                         if cand in self.funcs:
                             return cand
                 return None
+            if isinstance(base, ast.Name):
+                ltype = self.local_type(func, base.id)
+                if ltype is not None:
+                    cand = f"{ltype}.{callee.attr}"
+                    return cand if cand in self.funcs else None
             inner = self.resolve_callee(func, base)
             if inner is None:
                 return None
